@@ -94,8 +94,9 @@ def rand_gtf_forest(r, explicit=False, ngenes=None):
             if explicit and r.random() < 0.6:
                 ex = [x for x in recs if x["transcript"] == tid and x["ftype"] == "exon"]
                 if ex:
-                    recs.append(dict(ftype="transcript", gene=gid, transcript=tid, start=min(x["start"] for x in ex),
-                                     end=max(x["end"] for x in ex), seqid=seqid, strand=strand))
+                    recs.append(explicit_line(r, dict(ftype="transcript", gene=gid, transcript=tid,
+                                                      start=min(x["start"] for x in ex), end=max(x["end"] for x in ex),
+                                                      seqid=seqid, strand=strand)))
         if explicit and r.random() < 0.3:
             # a transcript known only from its own line (no exon, no other feature)
             recs.append(dict(ftype="transcript", gene=gid, transcript="%sLONE" % gid, start=r.randrange(1, 500),
@@ -103,9 +104,23 @@ def rand_gtf_forest(r, explicit=False, ngenes=None):
         if explicit and r.random() < 0.6:
             ex = [x for x in recs if x["gene"] == gid and x["ftype"] == "exon"]
             if ex:
-                recs.append(dict(ftype="gene", gene=gid, transcript=None, start=min(x["start"] for x in ex),
-                                 end=max(x["end"] for x in ex), seqid=seqid, strand=strand))
+                recs.append(explicit_line(r, dict(ftype="gene", gene=gid, transcript=None, start=min(x["start"] for x in ex),
+                                                  end=max(x["end"] for x in ex), seqid=seqid, strand=strand)))
     return recs
+
+
+def explicit_line(r, rec):
+    """a gene / transcript line of the file itself: now and then with an extent other than the envelope of its exons,
+    with an attribute of its own, and with 'gffutils_derived' in the source column (a gffutils export that was edited
+    and imported again) - it stays the single feature under its id, exactly as written"""
+    if r.random() < 0.3:
+        rec["start"] = max(1, rec["start"] - r.randrange(0, 40))
+        rec["end"] = rec["end"] + r.randrange(1, 40)
+    if r.random() < 0.4:
+        rec["note"] = r.choice(["curated", "x y", "n1"])
+    if r.random() < 0.3:
+        rec["source"] = "gffutils_derived"
+    return rec
 
 
 def gtf_lines(recs, gkey="gene_id", tkey="transcript_id"):
@@ -114,7 +129,9 @@ def gtf_lines(recs, gkey="gene_id", tkey="transcript_id"):
         attrs = [(gkey, [x["gene"]])]
         if x["transcript"] is not None:
             attrs.append((tkey, [x["transcript"]]))
-        out.append(gtf_line(x["seqid"], x["ftype"], x["start"], x["end"], x["strand"], attrs))
+        if "note" in x:
+            attrs.append(("note", [x["note"]]))
+        out.append(gtf_line(x["seqid"], x["ftype"], x["start"], x["end"], x["strand"], attrs, source=x.get("source", "src")))
     return out
 
 
